@@ -21,6 +21,8 @@ type Case struct {
 	Req  rsx.Req         `json:"req"`
 	// Extra, when set, is registered under GET after Set and deleted again before the request
 	Extra string `json:"extra,omitempty"`
+	// ViaUpdate: the routes reached their options through Update
+	ViaUpdate bool `json:"via_update,omitempty"`
 }
 
 var methods = []string{"GET", "POST", "CONNECT"}
@@ -275,6 +277,9 @@ type poolDef struct {
 	afterDelete bool
 	// methods, when set, replaces the three default request methods for this pool
 	methods []string
+	// viaUpdate: every route is first registered with another handler and trailing-slash option and then replaced
+	// by Update (rsx.BuildViaUpdate)
+	viaUpdate bool
 }
 
 func pools(quick bool) []poolDef {
@@ -321,6 +326,8 @@ func pools(quick bool) []poolDef {
 		ps = append(ps, poolDef{name: fmt.Sprintf("option-lists-global%d", pf), patterns: optPats, paths: rsx.GenPaths([]string{"a", "b"}, 2), hosts: []string{""}, k: 2, opts: allOpts, prof: rsx.Profile{Slash: pf},
 			methods: []string{"GET", "HEAD", "POST", "CONNECT", "FOO"}})
 	}
+	// routes that reached their trailing-slash option through Update
+	ps = append(ps, poolDef{name: "flat-via-update", patterns: flatQ, paths: rsx.GenPaths([]string{"a", "b", "ab"}, 2), hosts: []string{""}, k: 2, viaUpdate: true})
 	if !quick {
 		core := append([]string{"/"}, rsx.GenPatterns([]string{"a", "{}", "*{}"}, 2, true, "")...)
 		ps = append(ps, poolDef{name: "core4", patterns: core, paths: rsx.GenPaths([]string{"a", "b"}, 3), hosts: []string{""}, k: 4})
@@ -393,7 +400,7 @@ func runPool(c *mc.Ctx, r *mc.Result, pd poolDef) {
 							} else {
 								msg = pre + msg
 							}
-							r.Violate("rsx", class, msg, Case{Set: full, Prof: pd.prof, Req: rq, Extra: extra})
+							r.Violate("rsx", class, msg, Case{Set: full, Prof: pd.prof, Req: rq, Extra: extra, ViaUpdate: pd.viaUpdate})
 						}
 					}
 				}
@@ -418,7 +425,11 @@ func runPool(c *mc.Ctx, r *mc.Result, pd poolDef) {
 			r.Count("sets", 1)
 			return
 		}
-		e, err := rsx.Build(full, pd.prof)
+		build := rsx.Build
+		if pd.viaUpdate {
+			build = rsx.BuildViaUpdate
+		}
+		e, err := build(full, pd.prof)
 		if err != nil {
 			r.Count("sets_rejected_by_router", 1)
 			return
@@ -532,6 +543,9 @@ func replay(c *mc.Ctx, raw json.RawMessage) string {
 	if cs.Extra != "" {
 		e, err = rsx.BuildAfterDelete(cs.Set, "GET", cs.Extra, false, cs.Prof)
 		pre = fmt.Sprintf("[after Handle(GET %s) and Delete(GET %s)] ", cs.Extra, cs.Extra)
+	} else if cs.ViaUpdate {
+		e, err = rsx.BuildViaUpdate(cs.Set, cs.Prof)
+		pre = "[every route registered with another option first, then replaced by Update] "
 	} else {
 		e, err = rsx.Build(cs.Set, cs.Prof)
 	}
